@@ -70,3 +70,60 @@ func VerifHarness_C17_pools() {
 	zzverif.SharedEnd()
 	zzverif.Assert(zzverif.LocksHeld() == 0, "every lock is released when the call returns")
 }
+
+// VerifHarness_C17_pool_interleave: two overlapping "add" calls for the same key on the exit pool and on the
+// proposer-slashing pool behave like one of the two sequential orders: exactly one of them is accepted and that one is
+// what the pool holds. The second call is run as a whole at the k-th point where the first releases the pool's lock
+// (a check made under one critical section and a store made under another lets both succeed).
+func VerifHarness_C17_pool_interleave() {
+	spec := &common.Spec{}
+	ctx := context.Background()
+	kind := zzverif.Choose(2)
+	k := zzverif.Choose(3)
+	cnt, ran := 0, false
+	var errA, errB error
+	ea := &phase0.SignedVoluntaryExit{Message: phase0.VoluntaryExit{Epoch: common.Epoch(zzverif.NondetU8()), ValidatorIndex: 5}}
+	eb := &phase0.SignedVoluntaryExit{Message: phase0.VoluntaryExit{Epoch: common.Epoch(zzverif.NondetU8()), ValidatorIndex: 5}}
+	ea.Signature[0], eb.Signature[0] = 1, 2
+	sa, sb := &phase0.ProposerSlashing{}, &phase0.ProposerSlashing{}
+	sa.SignedHeader1.Message.ProposerIndex, sb.SignedHeader1.Message.ProposerIndex = 7, 7
+	sa.SignedHeader2.Message.ProposerIndex, sb.SignedHeader2.Message.ProposerIndex = 7, 7
+	sa.SignedHeader1.Signature[0], sb.SignedHeader1.Signature[0] = 1, 2
+	ep := NewVoluntaryExitPool(spec)
+	pp := NewProposerSlashingPool(spec)
+	zzverif.OnUnlock(func() {
+		if ran {
+			return
+		}
+		if cnt == k {
+			ran = true
+			if kind == 0 {
+				errB = ep.AddVoluntaryExit(ctx, eb)
+			} else {
+				errB = pp.AddProposerSlashing(ctx, sb)
+			}
+		}
+		cnt++
+	})
+	zzverif.MustReturnWithin(200000)
+	if kind == 0 {
+		errA = ep.AddVoluntaryExit(ctx, ea)
+	} else {
+		errA = pp.AddProposerSlashing(ctx, sa)
+	}
+	zzverif.MustReturnWithin(0)
+	zzverif.OnUnlock(nil)
+	if !ran {
+		return
+	}
+	zzverif.Reach("pool-interleaved")
+	zzverif.Assert((errA == nil) != (errB == nil), "of two overlapping adds for the same key exactly one is accepted")
+	if kind == 0 {
+		all := ep.All()
+		zzverif.Assert(len(all) == 1 && ((errA == nil && all[0] == ea) || (errB == nil && all[0] == eb)), "the pool holds the accepted exit")
+	} else {
+		all := pp.All()
+		zzverif.Assert(len(all) == 1 && ((errA == nil && all[0] == sa) || (errB == nil && all[0] == sb)), "the pool holds the accepted proposer slashing")
+	}
+	zzverif.Assert(zzverif.LocksHeld() == 0, "no lock is left held")
+}
